@@ -29,7 +29,7 @@ import (
 // the really signed accumulator the verifier reads from the proof.
 
 type c11Op struct {
-	Kind   int  `json:"kind"` // 0 prepare cache, 1 revoke other, 2 revoke self, 3 update witness, 4 prove, 5 restart holder, 6 clock, 7 = 0;1;3 (makes a prepared commitment stale)
+	Kind   int  `json:"kind"` // 0 prepare cache, 1 revoke other, 2 revoke self, 3 update witness, 4 prove, 5 restart holder, 6 clock, 7 = 0;1;3 (makes a prepared commitment stale), 8 = 0;6;3;4 (same-index refresh under a prepared commitment)
 	Cred   int  `json:"cred"`
 	Tamper bool `json:"tamper"`
 }
@@ -65,7 +65,7 @@ func drawC11(rt *rapid.T) C11Spec {
 	}
 	n := rapid.IntRange(1, depth).Draw(rt, "nops")
 	for i := 0; i < n; i++ {
-		op := c11Op{Kind: rapid.SampledFrom([]int{0, 0, 1, 1, 2, 3, 3, 4, 4, 4, 5, 6, 7, 7}).Draw(rt, "kind"), Cred: rapid.IntRange(0, s.NCreds-1).Draw(rt, "cred")}
+		op := c11Op{Kind: rapid.SampledFrom([]int{0, 0, 1, 1, 2, 3, 3, 4, 4, 4, 5, 6, 7, 7, 8}).Draw(rt, "kind"), Cred: rapid.IntRange(0, s.NCreds-1).Draw(rt, "cred")}
 		s.Ops = append(s.Ops, op)
 	}
 	// every run ends with a proof; one proof per run carries the tamper catalogue
@@ -141,6 +141,10 @@ func execC11Bubble(r *kernel.Run, s C11Spec) {
 	for _, op := range s.Ops {
 		if op.Kind == 7 {
 			ops = append(ops, c11Op{Kind: 0, Cred: op.Cred}, c11Op{Kind: 1, Cred: op.Cred}, c11Op{Kind: 3, Cred: op.Cred})
+			continue
+		}
+		if op.Kind == 8 { // prepared commitment, then the same accumulator re-signed later, witness refreshed
+			ops = append(ops, c11Op{Kind: 0, Cred: op.Cred}, c11Op{Kind: 6, Cred: op.Cred}, c11Op{Kind: 3, Cred: op.Cred}, c11Op{Kind: 4, Cred: op.Cred})
 			continue
 		}
 		ops = append(ops, op)
